@@ -24,30 +24,40 @@ META = {
     "level": "proof",
     "level_text": "Theorems in props/C07.v over ALL sequences of messages (any brine value as a message, any script of peer answers to the "
                   "server's own nested requests, arbitrary interference by other connections between messages), ALL service semantics (what an "
-                  "operation on an object does and returns is an arbitrary function over an abstract service state) and ALL handler tables "
+                  "operation on an object does, returns or raises -- including the objects an exception carries -- is an arbitrary function over an "
+                  "abstract service state; only hypothesis: operations on plain values do not conjure service objects) and ALL handler tables "
                   "expressible in the handler language: the event trace is well-formed against a ghost replay (every object reference is resolved "
-                  "through this connection's table, the table only changes by lend/decref/clear events, every object touched, probed, lent or "
-                  "pickled is held legitimately in that request), every by-name access passed the C06 decision under the default configuration "
-                  "(getattr only, exposed_ or safe name, or the object's own hook), no pickle while allow_pickle is off, no import and no constructor "
-                  "from exception payloads, one outcome per message with the request's own sequence number, refusals leave the service state "
-                  "unchanged.  The handler bodies are DATA regenerated from the source on every run (tools/pygen/handlers.py) and equated with the "
+                  "through this connection's table, the table only changes by lend/decref/clear events, every object touched, probed, lent, pickled "
+                  "or repr()-ed for an exception report was handed out by the service in that request), every by-name access passed the C06 decision "
+                  "under the default configuration, no pickle while allow_pickle is off, no import and no constructor from exception payloads, no "
+                  "module-level __getattr__ hook run by netref.class_factory (generated lookup mode; refuted for the getattr form), one outcome per "
+                  "message with the request's own sequence number, undecodable responses are dropped (EOFError / non-Exception still end the "
+                  "connection).  The handler bodies are DATA regenerated from the source on every run (tools/pygen/handlers.py) and equated with the "
                   "table the interpreter runs; the language cannot express a by-name access that bypasses _access_attr.  Proof is the right level: "
                   "the claim is about every message sequence and every service.",
     "level_note": "Trusted: Coq kernel, pygen (handler-body translator), extraction + driver, harness (canaries, raw peer). Reading of 'the policy "
                   "denies' as in DESIGN: nameless operations on held references and constant-name introspection by the implementation are capabilities. "
-                  "Modelled as one atomic step per message: requests the peer sends while the server waits for an answer to its own nested request "
-                  "are exercised by the fuzzer's oracle only. Operations whose target is a peer-owned proxy are one scripted exchange in the model "
-                  "(flagged approximate; such sessions are compared up to that point). hasattr probes are reads. netref.class_factory resolves a "
-                  "peer-declared type name against already imported modules with getattr(module, name, None) (never called, never sent, no import): "
-                  "pinned as a shape and watched by the audit hook.",
+                  "PARTIAL: (1) one atomic step per message: requests the peer sends while the server waits for an answer to its own nested request "
+                  "(reentrant serve) are outside every theorem, exercised by the fuzzer's oracle only; (2) outcome OUnm = not described by the model "
+                  "(attributes of plain values, keyword arguments, frozenset payloads, nesting > 64, float release counts); it is absorbing, all "
+                  "statements concern the modelled prefix; operations whose target is a peer proxy are one scripted exchange (flag approx); (3) "
+                  "theorem 7 (state untouched) is true of the model by construction and counts probes/on_disconnect/payload repr as service code; (4) "
+                  "dir() of the object of a CHAINED (caught) AttributeError in the traceback text is an event without a provenance proof (ECtx); (5) "
+                  "closed-after-OEnd is Connection.serve_all's try/finally (typed fact; the harness runs the real serve_all around the exception). "
+                  "Known finding: exception replies carry str()/repr() of objects the raised exception carries (exception-payload-repr).",
     "technique": "translator tie (handler bodies as terms of a small language, = by reflexivity) + trace-invariant proofs by induction over messages and "
                  "over the handler language + differential correspondence of the extracted model against a real Connection under a raw-protocol fuzzer "
                  "with canary objects and audit hooks",
-    "gen": ["handlers", "protocol", "consts", "attrpolicy", "vinegar"],
+    "gen": ["handlers", "protocol", "consts", "attrpolicy", "vinegar", "colls", "netref"],
     "shapes": ["handlers.*", "protocol.Connection._dispatch", "protocol.Connection._dispatch_request", "protocol.Connection._unbox",
                "protocol.Connection._box", "protocol.Connection._request_handlers", "protocol.Connection._handle_*",
                "protocol.Connection._access_attr", "protocol.Connection._check_attr", "protocol.Connection._unbox_exc",
-               "protocol.Connection._netref_factory", "protocol.Connection.serve_all", "protocol.Connection._cleanup"],
+               "protocol.Connection._netref_factory", "protocol.Connection.serve_all", "protocol.Connection.serve", "protocol.Connection._cleanup",
+               "protocol.Connection.__init__", "protocol.Connection._send_exc", "protocol.Connection._box_exc", "protocol.Connection._dispatch_response",
+               "protocol.Connection._seq_request_callback", "protocol.Connection._send", "colls.RefCountingColl.*", "colls.WeakValueDict.*",
+               "vinegar.dump_after_fast_path", "vinegar._box_exc", "vinegar._unbox_exc", "vinegar.load", "vinegar._get_exception_class",
+               "netref.class_factory", "netref._make_method", "netref.module.statements", "netref.class.*", "netref.BaseNetref.__init__",
+               "netref.NetrefClass.*"],
     "models": ["hostile"],
     "model_files": ["Hostile"],
     "assumptions": [
@@ -55,6 +65,15 @@ META = {
         "nameless operations on a held reference (call, repr, str, hash, dir, iteration, truth test, inspect, instance check, release) and the "
         "implementation's constant-name introspection are part of what the service exposes for every object it hands out",
         "one message is handled at a time; nested requests of the peer while the server waits are outside the model (oracle only)",
+        "hasattr probes of _check_attr, type(), get_id_pack, repr()/dir() of exception payloads and on_disconnect are reads in the model: they "
+        "do not change the abstract service state (theorem 7 is therefore partial: it speaks of refusals that happen before any of them)",
+        "Python's own operations on plain values cannot conjure service objects (hypothesis val_closed of the trace theorems)",
+        "outcome OUnm = the model does not describe this message; from then on it says nothing about the connection (absorbing); operations "
+        "whose target is a peer proxy and proxies re-created for an id pack seen before are approximated (flag approx): the harness compares "
+        "only the prefix before either",
+        "objects carried by an exception that service code raised (arguments, attributes, AttributeError.obj attached by CPython 3.10+) count "
+        "as handed out by the service: vinegar.dump sends their repr() (known finding exception-payload-repr)",
+        "OEnd implies closed for Connection.serve_all (try/finally close()); a caller driving serve() itself must close on its own",
     ],
 }
 
@@ -230,9 +249,9 @@ XSX = {"TypeError": [0, 0], "ValueError": [0, 1], "AttributeError": [0, 2], "Key
 
 
 def _missing(name):
-    # an AttributeError that already carries name/obj: CPython then does not attach the canary itself, so that the
-    # traceback/vinegar reporting of the error (dir(obj), repr(obj) of AttributeError.obj) stays off the canaries
-    return AttributeError(name, name=name, obj=SENTINEL)
+    # a plain AttributeError: when it leaves a canary's __getattribute__ CPython (3.10+) attaches the canary as .obj, and the
+    # reporting of the error (traceback suggestions: dir(obj); vinegar.dump: repr(obj)) then reaches the canary -- as for any object
+    return AttributeError(name)
 
 
 def _log(o, what):
@@ -249,6 +268,10 @@ def _value(d, aval, missing):
         LOG.append((aval[1], "yield"))
         return x
     if k == "x":
+        if aval[1] == "carry":
+            # service code raises an exception that carries one of its objects (never lent, never returned)
+            LOG.append((aval[2], "carried"))
+            raise CustomExc(d["world"].objs[aval[2]])
         raise XCODES[aval[1]]("canary")
     raise missing
 
@@ -481,6 +504,7 @@ class Peer(object):
         self.theirs.on_idle = self.on_idle
         self.out, self.asks, self.script = [], [], []
         self.ended = None
+        self.closed_by_serve = None
         self.interleave = None      # optional: a request sent by the peer while the server waits for its answer
 
     def send_raw(self, payload):
@@ -523,16 +547,27 @@ class Peer(object):
         return progressed
 
     def pump(self):
-        """what Connection.serve_all does with this connection, one message at a time"""
+        """one message at a time through serve(); when an exception leaves serve() the REAL Connection.serve_all is run around that
+        exception (its own handlers and its finally decide what happens to the connection)"""
         while self.theirs.inbox and not self.conn.closed:
             try:
                 self.conn.serve(0)
-            except BaseException as e:      # serve_all: try/finally close()
+            except BaseException as e:
                 self.ended = e
+                self.closed_by_serve = self.conn.closed
+
+                def failing_serve(*a, **k):
+                    raise e
+                self.conn.serve = failing_serve          # instance attribute: serve_all's `self.serve(None)` meets the same exception
                 try:
-                    self.conn.close()
+                    self.conn.serve_all()
                 except BaseException:
                     pass
+                finally:
+                    try:
+                        del self.conn.serve
+                    except AttributeError:
+                        pass
                 break
         self.out += self.drain()
 
@@ -552,6 +587,56 @@ def table_of(conn):
         return {k: (v[0], v[1]) for k, v in conn._local_objects._dict.items()}
     except Exception:
         return {}
+
+
+# ====================================================================== modules with a module-level __getattr__ (PEP 562)
+import atexit, importlib, os, shutil, tempfile, types
+try:
+    import concurrent.futures          # as any asyncio application has it: ProcessPoolExecutor / ThreadPoolExecutor are served by its __getattr__ hook
+except Exception:
+    pass
+HOOK_MOD, LAZY_MOD = "c07mod_hook", "c07mod_lazy"
+_HOOK = {"ran": [], "dir": None}
+
+
+def _install_hook_module():
+    d = tempfile.mkdtemp(prefix="c07-")
+    _HOOK["dir"] = d
+    with open(os.path.join(d, LAZY_MOD + ".py"), "w") as f:
+        f.write("class Lazy(object):\n    pass\n")
+    sys.path.insert(0, d)
+    importlib.invalidate_caches()
+    m = types.ModuleType(HOOK_MOD)
+
+    def __getattr__(name):
+        _HOOK["ran"].append(name)
+        if name in ("Lazy", "LazyNone"):
+            lazy = importlib.import_module(LAZY_MOD)
+            if name == "Lazy":
+                return lazy.Lazy
+        raise AttributeError(name)
+    m.__getattr__ = __getattr__
+    m.Plain = type("Plain", (object,), {})
+    sys.modules[HOOK_MOD] = m
+
+    def cleanup():
+        sys.modules.pop(HOOK_MOD, None)
+        sys.modules.pop(LAZY_MOD, None)
+        if d in sys.path:
+            sys.path.remove(d)
+        shutil.rmtree(d, ignore_errors=True)
+    atexit.register(cleanup)
+
+
+_install_hook_module()
+# what the model is told about sys.modules: module -> names served by its hook (with the modules the hook imports) / plainly present
+MODEL_MODS = [[HOOK_MOD, [["Lazy", [LAZY_MOD]], ["LazyNone", [LAZY_MOD]], ["Plain", None]]]]
+HOOK_NAMES = [HOOK_MOD + ".Lazy", HOOK_MOD + ".LazyNone", HOOK_MOD + ".Plain", HOOK_MOD + ".nosuch", HOOK_MOD, "concurrent.futures.ProcessPoolExecutor",
+              "concurrent.futures.ThreadPoolExecutor", "concurrent.futures.nosuch"]
+
+
+def mods_sx():
+    return [[cps(m), [[cps(n), ([2, [cps(i) for i in imps]] if imps is not None else [0])] for n, imps in ns]] for m, ns in MODEL_MODS]
 
 
 # ====================================================================== world generation
@@ -576,6 +661,8 @@ def gen_aval(r, n_objs, allow_x=True, allow_none=True):
     if c < 0.85:
         return ["o", r.randrange(n_objs)]
     if c < 0.95 and allow_x:
+        if r.random() < 0.25:
+            return ["x", "carry", r.randrange(n_objs)]          # an exception that carries a service object
         return ["x", r.choice(["TypeError", "ValueError", "KeyError", "exc", "StopIteration", "AttributeError", "base", "kbd", "sysexit", "IndexError"])]
     return ["none"]
 
@@ -621,7 +708,7 @@ def aval_sx(a, world):
     if a[0] == "o":
         return [1, a[1]]
     if a[0] == "x":
-        return [2, XSX[a[1]]]
+        return [2, [5, [a[2]]]] if a[1] == "carry" else [2, XSX[a[1]]]
     return [9]
 
 
@@ -663,6 +750,7 @@ class Gen(object):
         self.n = len(descs) - 1            # without META
         self.lent = [0]                    # indices the peer probably holds by now
         self.fresh = 0
+        self.remote_ids = []
         self.late = False
 
     # ---- pieces
@@ -690,9 +778,18 @@ class Gen(object):
             return RR(T((r.choice(BUILTIN_NAMES), r.randrange(1, 99), r.randrange(0, 99)))), []
         self.fresh += 1
         name = r.choice(["foo.Bar", "os.system", "harness.C07.K0", "builtins.eval", "subprocess.Popen", "nosuch", "a.b.c.d", "ast.Num",
-                         "rpyc.core.protocol.Connection", "5"])
+                         "rpyc.core.protocol.Connection", "5"] + HOOK_NAMES)
         first = name if r.random() < 0.9 else r.choice([5, None, True])
-        idp = T((first, r.randrange(1, 99), 100000 + self.fresh))
+        k = r.random()
+        if k < 0.25:
+            tail = (r.randrange(1, 9), 0)                      # a class of the peer: its netref class is cached per connection once INSPECT was answered
+        elif k < 0.35 and self.remote_ids:
+            first, tail = r.choice(self.remote_ids)            # an id pack used before (weak proxy cache / class cache)
+        else:
+            tail = (r.randrange(1, 99), 100000 + self.fresh)
+        idp = T((first,) + tuple(tail))
+        if isinstance(first, str):
+            self.remote_ids.append((first, tuple(tail)))
         if c < 0.55:
             idp = T(r.choice([(), ("x",), 5, None, "abc", b"abcd", ("a", "b"), frozenset([1, 2, 3])]))
             return RR(idp), []
@@ -722,7 +819,10 @@ class Gen(object):
         if c < 0.75:
             return T("string exception")
         if c < 0.85:
-            return T(((mod, name), (), (("__class__", 5), ("__dict__", ()), ("args", (1,)), ("with_traceback", 1), ("__reduce__", "x")), "tb"))
+            pool = [("__class__", 5), ("__dict__", ()), ("args", (1,)), ("with_traceback", 1), ("__reduce__", "x"), ("__suppress_context__", 5),
+                    ("__suppress_context__", True), ("_remote_version", 5), ("_remote_version", b"5.0"), ("__traceback__", None), ("__cause__", 1),
+                    ("args", 5), (5, 1), ("__notes__", (1,))]
+            return T(((mod, name), (), tuple(r.sample(pool, r.randint(1, 4))), "tb"))
         return T(r.choice([(), (1, 2, 3, 4), ((1, 2), 3, 4, 5), (("builtins",), (), (), ""), (("builtins", 5), (), (), ""), None, 2,
                            (("builtins", "ValueError"), (), 5, ""), (("builtins", "ValueError"), (), ((1, 2, 3),), ""),
                            (("builtins", "ValueError"), (), (("_remote_version", 5),), ""), (("builtins", "ValueError"), (), (), 5),
@@ -854,7 +954,8 @@ class Gen(object):
             items = [tgt, r.choice([V(T(None)), V(T(0)), V(T(1)), V(T("x")), V(T(())), V(T((1,))), self.ref(), V(T(0.0)), V(T(b"")),
                                     V(self.exc_payload()), V(self.exc_payload()), V(self.exc_payload()), TT([V(T(1)), self.ref()])])]
         elif hname == "INSTANCECHECK":
-            other = r.choice([V(T((r.choice(BUILTIN_NAMES), 1, 2)))] * 3 + [V(T(("foo.Bar", 1, 2))), V(["id", self.ref_idx(), "exact"]), V(T(5)), V(T(())),
+            cached = [V(T((n, t[0], r.choice([0, 0, 5])))) for n, t in self.remote_ids if t[1] == 0][-3:]
+            other = r.choice([V(T((r.choice(BUILTIN_NAMES), 1, 2)))] * 3 + cached * 2 + [V(T(("foo.Bar", 1, 2))), V(["id", self.ref_idx(), "exact"]), V(T(5)), V(T(())),
                              V(T(("x",))), V(T("ab")), V(T(b"ab")), self.ref(), V(T((5, 6))), V(T(None))])
             items = [tgt, other]
         else:
@@ -1006,6 +1107,17 @@ def exc_class_of(e):
     return "exc"
 
 
+CLS_MODE = [2]        # how netref.class_factory looks the class up (0: getattr, runs module hooks; 2: the module's __dict__), regenerated in run()
+
+
+def class_mode():
+    try:
+        from tools.pygen import handlers as TH
+        return {"Vinegar.LkGetattr": 0, "Vinegar.LkDict": 2}[TH.class_lookup_mode(C.REPO)]
+    except Exception:
+        return None
+
+
 def noise_names():
     """names the implementation looks up by itself (regenerated from the source by tools/pygen/handlers.py)"""
     try:
@@ -1074,6 +1186,7 @@ class Session(object):
         mods_before = set(sys.modules)
         del LOG[:]
         _audit["events"].clear()
+        del _HOOK["ran"][:]
         with _PickleWatch() as pw:
             _audit["on"] = True
             try:
@@ -1090,8 +1203,14 @@ class Session(object):
                     self.lent.add(idp)
         return {"real": real, "out": out, "log": log, "before": before, "after": after, "ended": self.peer.ended,
                 "lent_before": lent_before, "lent_after": set(self.lent),
-                "closed": self.peer.conn.closed, "dead": dead, "asks": list(self.peer.asks), "audit": list(_audit["events"]),
-                "pickle": list(pw.calls), "newmods": sorted(set(sys.modules) - mods_before)}
+                "closed": self.peer.conn.closed, "dead": dead, "asks": list(self.peer.asks), "closed_by_serve": self.peer.closed_by_serve, "audit": list(_audit["events"]),
+                "pickle": list(pw.calls), "newmods": self._newmods(mods_before), "hook_ran": list(_HOOK["ran"])}
+
+    @staticmethod
+    def _newmods(before):
+        new = sorted(set(sys.modules) - before)
+        sys.modules.pop(LAZY_MOD, None)          # the next message starts without it again
+        return new
 
 
 # ====================================================================== the oracle: the property's own statement on the real objects
@@ -1120,9 +1239,33 @@ def oracle(ctx, sess, case, k, msg, obs, noise):
             hname = [n for n, v in R.H.items() if v == real[2][0]][0]
         except Exception:
             hname = "invalid"
-    # (1) names: every attribute access made by name is allowed by the policy, and is a read
+    # (1) names: every attribute access made by name is allowed by the policy, and is a read.
+    # The implementation's own constant-name lookups are expected noise -- except on the object a by-name request names, for the
+    # very name the peer sent (there the policy refuses such a name before anything but hasattr(obj, "exposed_" + name) happens)
+    peer_name, name_targets = None, set()
+    NAME_POS = {"GETATTR": [1], "SETATTR": [1], "DELATTR": [1], "CALLATTR": [1], "CMP": [2], "OLDSLICING": [1, 2]}
+    if is_request and hname in NAME_POS:
+        try:
+            items = real[2][1][1]
+            tgt = items[0]
+            if type(tgt[0]) is int and tgt[0] == R.LABEL_LOCAL_REF and tgt[1] in sess.obj_of_id:
+                ti = sess.obj_of_id[tgt[1]]
+                name_targets = {w.descs[ti]["type"]} if hname == "CMP" else {ti}
+                names = []
+                for pos in NAME_POS[hname]:
+                    nv = items[pos][1] if (len(items) > pos and type(items[pos][0]) is int and items[pos][0] == R.LABEL_VALUE) else None
+                    if isinstance(nv, bytes):
+                        nv = nv.decode("utf8", "replace")
+                    if isinstance(nv, str):
+                        names.append(nv)
+                peer_name = set(names)
+        except Exception:
+            peer_name, name_targets = None, set()
     for idx, what in obs["log"]:
         kind, _, nm = what.partition(":")
+        if kind == "getattr" and nm in noise and peer_name and nm in peer_name and idx in name_targets and not allowed_name(nm):
+            bad("attr-policy-bypass:%s" % hname, "the name the peer sent (one the implementation also uses itself) was looked up on the target object",
+                observed=(idx, what), expected="AttributeError before the object is asked for that name")
         if kind in ("setattr", "delattr"):
             bad("write-access:%s:%s" % (kind, hname), "an attribute was %s under the default configuration" % ("set" if kind == "setattr" else "deleted"),
                 observed=(idx, what), expected="AttributeError, nothing touched")
@@ -1140,13 +1283,23 @@ def oracle(ctx, sess, case, k, msg, obs, noise):
     if is_request and hname == "GETROOT":
         held.add(0)
     closure = set(held)
+    carried_unheld = set()
     for idx, what in obs["log"]:
         if idx == "META" or idx == "?":
             continue
         if what == "yield":
             closure.add(idx)
             continue
+        if what == "carried":
+            if idx not in closure:
+                carried_unheld.add(idx)
+            continue
         ok = idx in closure or any(w.descs[j]["type"] == idx for j in closure if j < len(w.descs))
+        if not ok and idx in carried_unheld and what in ("op:repr", "op:str"):      # repr(arg) in the record, str(exc) in the traceback text
+            # vinegar.dump sends repr() of what the exception carries: an object the service attached to its exception, never lent
+            bad("exception-payload-repr:unlent-object", "the exception reply carries repr() of an object that was never lent or returned (it travels in the "
+                "exception the service raised)", observed=(idx, what), expected="nothing of an object the peer holds no reference to")
+            continue
         if what == "getattr:on_disconnect" and idx == 0:
             ok = True
         if not ok:
@@ -1162,18 +1315,25 @@ def oracle(ctx, sess, case, k, msg, obs, noise):
                 bad("table-grew-unauthorised:%s" % hname, "an object the peer had no way to reach was added to the table of lent objects",
                     observed=(i, repr(key)[:80]), expected="only results of permitted operations are lent")
         if i is not None and key not in obs["lent_after"]:
-            bad("table-holds-unlent-object", "the table of lent objects has an entry that was never sent to this peer on this connection",
-                observed=(i, repr(key)[:80]), expected="entries only for objects sent on this connection")
+            ctx.count("note:table-entry-never-seen-on-the-wire")      # lent but not (yet) sent: a release matter (C10), not a C07 violation
         if i is not None and w.ids[i] != key:
             bad("table-key-mismatch", "a table entry maps an id pack to a different object", observed=(i, repr(key)[:80]), expected=repr(w.ids[i])[:80])
     # (4) nothing pickled / unpickled / imported / executed
+    hook_import = bool(obs["hook_ran"]) or any(m.startswith("concurrent.futures.") or m.startswith("multiprocessing") for m in obs["newmods"])
     if obs["pickle"]:
         bad("pickle-used:%s" % hname, "the process pickled or unpickled while allow_pickle is off", observed=obs["pickle"], expected="ValueError('pickling is disabled')")
     for ev in obs["audit"]:
         if ev.startswith("open:") and (ev.endswith(".py") or ev.endswith(".py'")):
             continue           # linecache reading source lines for the traceback text
+        if hook_import:
+            continue           # reported above under its own signature
         bad("audit:%s:%s" % (ev.split(":")[0], hname), "an import / code execution / process / unpickling event was triggered by the peer", observed=ev, expected="none")
-    if obs["newmods"]:
+    if hook_import:
+        # the peer-declared type name of a proxy reached a module-level __getattr__ (PEP 562) through netref.class_factory
+        bad("class-lookup-runs-module-hook", "netref.class_factory ran a module's __getattr__ hook for a peer-chosen name (modules imported: %s)"
+            % (obs["newmods"] or "none this time"), observed={"hook_called_with": obs["hook_ran"], "new_modules": obs["newmods"][:8]},
+            expected="the peer-named class is looked up in the module's own namespace only; nothing is imported")
+    elif obs["newmods"]:
         bad("module-imported:%s" % hname, "sys.modules grew while serving the peer", observed=obs["newmods"], expected="no import")
     # (5) one answer per request with its own sequence number, nothing else is answered; or this connection ends
     answers = [m for m in obs["out"] if isinstance(m, tuple) and len(m) == 3 and m[0] in (R.MSG_REPLY, R.MSG_EXCEPTION)]
@@ -1184,10 +1344,12 @@ def oracle(ctx, sess, case, k, msg, obs, noise):
                     observed=[repr(a[:2]) for a in answers], expected=repr(real[1]))
         elif len(answers) > 1:
             bad("request-answered-twice:%s" % hname, "more than one answer", observed=[repr(a[:2]) for a in answers], expected="at most one")
-    elif not is_request and answers and not isinstance(obs["real"], frozenset):
+    elif not is_request and answers and not isinstance(obs["real"], frozenset) and not msg.get("interleave"):
         bad("non-request-answered", "something that is not a request was answered", observed=[repr(a[:2]) for a in answers], expected="ignored or connection ends")
     if obs["ended"] is not None and not obs["closed"]:
-        bad("ended-but-open", "an exception left serve() and the connection is still open", observed=repr(obs["ended"]), expected="closed")
+        bad("ended-but-open", "an exception left serve() and Connection.serve_all left the connection open", observed=repr(obs["ended"]), expected="closed")
+    if obs["ended"] is not None:
+        ctx.count("ended:closed-by-%s" % ("serve" if obs.get("closed_by_serve") else "serve_all"))
     if obs["closed"] and obs["after"]:
         bad("closed-with-table", "the connection ended but still holds lent objects", observed=len(obs["after"]), expected=0)
     # (6) a reference that is not in this connection's table is refused and nothing is touched
@@ -1243,6 +1405,9 @@ def model_log(events, world):
                 out.append((e[1], "op:str"))        # no __qualname__ on an instance: CPython falls back to str(callee)
             if op in LOGMAP:
                 out.append((e[1], LOGMAP[op]))
+        elif tag == "payload":
+            if e[1] != len(world.descs) - 1:          # the metaclass itself has default repr/dir
+                out.append((e[1], "op:" + e[2].decode()))
         elif tag == "ask":
             asks.append(e[1])
     return out, asks
@@ -1251,7 +1416,7 @@ def model_log(events, world):
 def impl_log(log, noise, meta):
     out = []
     for idx, what in log:
-        if what == "yield":
+        if what in ("yield", "carried"):
             continue
         if idx == "META":
             idx = meta
@@ -1312,6 +1477,11 @@ def compare(ctx, sess, case, k, msg, obs, mres, noise, hname):
     if ml != il:
         ctx.tie_broken("correspondence:canary-log", "%s: model %r impl %r" % (where, ml, il))
         ok = False
+    mimp = sorted("".join(map(chr, e[1])) for e in events if e[0] == b"clsimport")
+    iimp = sorted(m for m in obs.get("newmods", []) if m == LAZY_MOD)
+    if mimp != iimp:
+        ctx.tie_broken("correspondence:class-lookup-import", "%s: model %r impl %r" % (where, mimp, iimp))
+        ok = False
     if masks != obs["asks"]:
         ctx.tie_broken("correspondence:nested-requests", "%s: model %r impl %r" % (where, masks, obs["asks"]))
         ok = False
@@ -1368,7 +1538,8 @@ def run_case(ctx, case, noise, model_jobs=None):
                 ctx.count("ended:" + type(obs["ended"]).__name__)
         modelable = all("m" in m and not m.get("interleave") for m in case["msgs"])
         if model_jobs is not None and modelable:
-            sx = ["session", world_sx(sess.world), [cps(n) for n in BUILTIN_NAMES], [cps(n) for n in EXC_NAMES], [msg_sx(sess, m) for m in case["msgs"]]]
+            sx = ["session", CLS_MODE[0], world_sx(sess.world), [cps(n) for n in BUILTIN_NAMES], [cps(n) for n in EXC_NAMES], mods_sx(),
+                  [msg_sx(sess, m) for m in case["msgs"]]]
             # what the comparison needs after the python objects are gone
             snap = {"descs": case["world"], "rev": dict(sess.rev)}
             slim = []
@@ -1379,6 +1550,7 @@ def run_case(ctx, case, noise, model_jobs=None):
                     i = DESC.get(id(o), {}).get("idx")
                     after.append((key2, i, cnt))
                 slim.append(({"out": obs["out"], "log": obs["log"], "after": after, "ended": obs["ended"], "closed": obs["closed"], "dead": obs["dead"],
+                              "newmods": obs["newmods"],
                               "asks": obs["asks"]}, hname))
             model_jobs.append((case, sx, snap, slim))
     finally:
@@ -1475,6 +1647,20 @@ def special_cases(r):
     nested2 = ["tuple", [T(1), T(78), ["tuple", [T(R.H["GETATTR"]), TT([L(["id", 1, "exact"]), V(T("exposed_get"))])]]]]
     msgs.append(req("PING", [RR(T(("foo.Baz", 1, 424243)))], answers=[["silent"]], interleave=nested2))
     out.append({"id": "special-interleave", "world": descs, "msgs": msgs})
+    # the per-connection cache of peer classes: once INSPECT was answered for an id pack with instance id 0, INSTANCECHECK against that
+    # name reaches the service's __instancecheck__, and a second proxy of the same class needs no INSPECT
+    cidx = [i for i, d in enumerate(descs[:-1]) if d["cls"]][0]
+    descs2 = json.loads(json.dumps(descs))
+    descs2[0]["attrs"] = [["exposed_get", ["o", cidx]]]
+    clsref = L(["id", cidx, "exact"])
+    msgs = [req("GETROOT", []), req("GETATTR", [root, V(T("get"))]),
+            req("INSTANCECHECK", [clsref, V(T(("foo.Cached", 7, 0)))]),
+            req("PING", [RR(T(("foo.Cached", 7, 0)))], answers=[["reply", V(T(()))]]),
+            req("INSTANCECHECK", [clsref, V(T(("foo.Cached", 7, 5)))]),
+            req("PING", [RR(T(("foo.Cached", 7, 0)))]),
+            req("PING", [RR(T((HOOK_MOD + ".Lazy", 3, 0)))], answers=[["reply", V(T(()))]]),
+            req("PING", [RR(T(("concurrent.futures.ProcessPoolExecutor", 3, 77)))], answers=[["reply", V(T(()))]])]
+    out.append({"id": "special-classcache", "world": descs2, "msgs": msgs})
     # bytes that are not a brine value at all
     msgs = [req("GETROOT", []), {"raw": "ff", "what": "undecodable"}]
     out.append({"id": "special-undecodable", "world": descs, "msgs": msgs})
@@ -1491,6 +1677,10 @@ def run(ctx):
     if noise is None:
         ctx.tie_broken("translator:handlers.const_names", "tools/pygen/handlers.py could not derive the constant introspection names")
         noise = FALLBACK_NOISE
+    mode = class_mode()
+    if mode is None:
+        ctx.tie_broken("translator:handlers.class_lookup_mode", "tools/pygen/handlers.py does not recognise how netref.class_factory looks a class up")
+    CLS_MODE[0] = 2 if mode is None else mode
     ctx.coverage_extra["rule"] = ("sessions of 4..30 messages over a generated world of 3..9 canary objects (instances, classes, metaclass) behind a real Connection; "
                                   "every session starts with GETROOT; 90% requests (handler drawn uniformly from the 20 published numbers; targets: 80% references "
                                   "the peer probably holds, the rest never-lent/stale/other-connection/forged variants of real id packs (float, complex, shifted, "
@@ -1524,6 +1714,8 @@ def replay(ctx, rep):
     model = C.Model("hostile")
     model = model if model.available() else None
     noise = noise_names() or FALLBACK_NOISE
+    mode = class_mode()
+    CLS_MODE[0] = 2 if mode is None else mode
     jobs = [] if model is not None else None
     run_case(ctx, {"id": "replay", "world": case["world"], "msgs": case["msgs"]}, noise, jobs)
     if jobs:
